@@ -73,7 +73,9 @@ def concreteTys : List Ty :=
   [Ty.simple "u8", Ty.simple "u16", Ty.simple "String", Ty.app "Vec" [Ty.simple "u8"],
    .tuple [Ty.simple "u8", Ty.simple "i8"], .array (Ty.simple "u8") (.lit "3"),
    .path true [.mk "core" [], .mk "primitive" [], .mk "u32" []],
-   Ty.app "Option" [Ty.simple "bool"], .tuple [], .tuple [Ty.simple "u8"], .paren (Ty.simple "u8")]
+   Ty.app "Option" [Ty.simple "bool"], .tuple [], .tuple [Ty.simple "u8"], .paren (Ty.simple "u8"),
+   -- recursive through `Self`
+   Ty.app "Box" [Ty.selfTy], Ty.app "Option" [Ty.app "Box" [Ty.selfTy]], Ty.app "Vec" [Ty.selfTy]]
 
 /-- field types over the parameters `T`, `U`, `N`, `'a` (used only when declared) -/
 def genericTys (hasU hasN hasLt : Bool) : List Ty :=
